@@ -59,7 +59,8 @@ def lat_unlinked(with_fault=True, fault_first=False):
         "dataset_groups": {"default": {"residual_function": "variable_projection", "link_clp": False}},
         "clp_relations": [{"source": "a", "target": "c", "parameter": "e.a", "interval": [(0, 1)]}],
         "clp_constraints": [{"type": "zero", "target": "b", "interval": [(2, 2)]}],
-        "clp_penalties": [{"type": "equal_area", "source": "a", "source_intervals": [(0, 3)], "target": "b", "target_intervals": [(0, 3)],
+        "clp_penalties": [{"type": "equal_area", "source": "a", "source_intervals": [(3, 0)], "target": "b", "target_intervals": [(0, 3)],      # the source interval is written in reversed order (legitimate input)
+                           
                            "parameter": "r.2", "weight": 2.0}],
     }
     # e.a -> e.b -> p.3: an expression chain declared BEFORE its operands (two levels), used as relation parameter
